@@ -428,6 +428,9 @@ func (u *Upgrader) Upgrade(w http.ResponseWriter, r *http.Request, responseHeade
 				})
 				nonblock := true
 				vt.ResetConn(nbc, nonblock)
+				// the poller may deliver messages before the open handler
+				// below has run: they wait for it.
+				wsc.chOpened = make(chan struct{})
 				err = engine.AddTransferredConn(nbc)
 				if err != nil {
 					clearNBCWSSession()
@@ -499,6 +502,9 @@ func (u *Upgrader) Upgrade(w http.ResponseWriter, r *http.Request, responseHeade
 					return
 				}
 			})
+			// the poller may deliver messages before the open handler
+			// below has run: they wait for it.
+			wsc.chOpened = make(chan struct{})
 			err = engine.AddTransferredConn(nbc)
 			if err != nil {
 				clearNBCWSSession()
@@ -534,6 +540,9 @@ func (u *Upgrader) Upgrade(w http.ResponseWriter, r *http.Request, responseHeade
 	err = u.commResponse(wsc.Conn, responseHeader, challengeKey, subprotocol, compress)
 	if err != nil {
 		clearNBCWSSession()
+		if wsc.chOpened != nil {
+			close(wsc.chOpened)
+		}
 		return nil, err
 	}
 
@@ -545,6 +554,9 @@ func (u *Upgrader) Upgrade(w http.ResponseWriter, r *http.Request, responseHeade
 
 	if wsc.openHandler != nil {
 		wsc.openHandler(wsc)
+	}
+	if wsc.chOpened != nil {
+		close(wsc.chOpened)
 	}
 
 	// if parser != nil {
